@@ -321,6 +321,36 @@ func cmdAttacks(args []string) int {
 				}
 				finish(w)
 			}
+		} else if *kind == "tags" {
+			// own instance tag generation for every kind of randomness output: values below
+			// 0x100 must be skipped
+			for _, seq := range [][][]byte{
+				{{0, 0, 0, 0}, {0, 0, 0, 1}, {0, 0, 0, 0xff}, {0, 0, 1, 0}},
+				{{0, 0, 0, 0xff}, {0xff, 0xff, 0xff, 0xff}},
+				{{0, 0, 1, 0}},
+				{{0, 0, 0, 0}, {0, 0, 0, 0}, {0, 0, 0, 0}, {0x12, 0x34, 0x56, 0x78}},
+			} {
+				w := freshWorld(sd, of, 3, "ake")
+				w.P["A"].Rand.TagOverride = seq
+				w.P["B"].Rand.TagOverride = [][]byte{{0, 0, 0, 0x42}, {0, 0, 0, 0}, {0, 0, 2, 7}}
+				w.Handshake("A")
+				w.Send(w.P["A"], 1)
+				w.Send(w.P["B"], 2)
+				drain(w, 10)
+				finish(w)
+			}
+			// hostile first: messages from a foreign instance arrive before the genuine peer's
+			for _, version := range []int{3} {
+				w := freshWorld(sd, of, version, "none")
+				e := newEvil(w, int64(sd))
+				o := akeOpts{claim: "E", degen: -1, version: 3}
+				e.initiatorAttack("A", o, "foreign-first")
+				// now the genuine peer tries
+				w.Tick(w.P["A"])
+				w.Query(w.P["B"])
+				drain(w, 30)
+				finish(w)
+			}
 		} else {
 			for _, version := range []int{3, 2} {
 				w := freshWorld(sd, of, version, "none")
